@@ -556,16 +556,19 @@ package header
 //@   ensures uint8(result) == b[0]
 
 // ---------------------------------------------------------------------------
-// TCP options: parsers never read outside their input, whatever the bytes are.
+// TCP options: parsers never read outside their input, whatever the bytes are, and always
+// terminate (every iteration of the option walk moves forward: variant limit - i).
 
 //@ func ParseSynOptions props C15 C07 C03
 //@   loop 1 invariant 0 <= i && limit == len(opts)
+//@   loop 1 decreases limit - i
 //@   loop 1 invariant synOpts.WS >= -1 && synOpts.WS <= 14 && synOpts.MSS != 0
 //@   ensures result.WS >= -1 && result.WS <= 14
 //@   ensures result.MSS != 0
 
 //@ func ParseTCPOptions props C15 C07
 //@   loop 1 invariant 0 <= i && limit == len(b)
+//@   loop 1 decreases limit - i
 //@   loop 1 invariant arr(opts.SACKBlocks) == 0 || fresh(opts.SACKBlocks)
 //@   loop 2 invariant arr(opts.SACKBlocks) == 0 || fresh(opts.SACKBlocks)
 //@   loop 2 invariant 0 <= j && 0 <= i && limit == len(b) && numBlocks == (sackOptionLen - 2) / 8
